@@ -19,10 +19,12 @@ def setup():
 
 
 def dispatch(pid, tier):
-    from . import layout, graph, vft, inherit, enums
+    from . import layout, graph, vft, inherit, enums, impl
     table = {
         "C04": lambda: vft.run_vft("C04", tier),
         "C16": lambda: vft.run_c16(tier),
+        "C05": lambda: impl.run_impl("C05", tier),
+        "C15": lambda: impl.run_impl("C15", tier),
         "C06": lambda: inherit.run_inherit("C06", tier),
         "C07": lambda: inherit.run_inherit("C07", tier),
         "C08": lambda: enums.run_enum("C08", tier),
